@@ -153,7 +153,7 @@ def gen_cli_case(rnd, i):
                 nargs = 1
             path = name = None
             if nargs >= 1:
-                ext = rnd.choice([".wav", ".WAV", "", ".bin", ".raw", ".x.y"])
+                ext = rnd.choice([".wav", ".WAV", "", ".bin", ".raw", ".x.y", ".bk", ".tap", ".v2.wav"])
                 form = rnd.choice(["plain", "plain", "subdir", "dotdot", "abs", "dot"])
                 fn = rnd.choice(FILE_CHARS[:62]) + rnd_word(rnd, FILE_CHARS, 0, 9) + ext
                 path = {"plain": fn, "subdir": "out/" + fn, "dotdot": "../" + fn if srcdir else "out/../" + fn, "abs": "@ABS@/" + fn, "dot": "./" + fn}[form]
@@ -171,8 +171,9 @@ def gen_cli_case(rnd, i):
     if mode.startswith("o+implicit"):
         # both selectors: the -o target is a requested output in any case; the implicit one beside it is not judged
         opts = opts + ["--implicit-bin"]
+    second = rnd.choice([None, None, "zz2nd.mac", "other/tail.mac", "aa0.mac"])
     return {"kind": "cli", "base": base, "image": img.hex(), "src": stem + suffix, "srcdir": srcdir, "directives": directives,
-            "opts": opts, "where": rnd.choice(["top", "bottom", "middle"]), "quote": rnd.choice("\"'/")}
+            "opts": opts, "where": rnd.choice(["top", "bottom", "middle"]), "quote": rnd.choice("\"'/"), "second": second}
 
 
 def case_signature(case):
@@ -302,6 +303,11 @@ def run_case(case, cnt=None):
         body = [f".link {base:o}"]
         for i in range(0, len(img), 16):
             body.append(".byte " + ", ".join(f"{b}." for b in img[i:i + 16]))
+        body2 = []
+        if case.get("second"):
+            # the image comes from two linked sources; every default path is derived from the FIRST one
+            k2 = 1 + (len(body) - 1) // 2
+            body, body2 = body[:k2], body[k2:]
         if case["where"] == "top":
             lines = dlines + body
         elif case["where"] == "bottom":
@@ -313,6 +319,12 @@ def run_case(case, cnt=None):
         with open(src_path, "w", encoding="utf-8") as f:
             f.write("\n".join(lines) + "\n")
         argv = [os.path.join(case["srcdir"], case["src"])]
+        if case.get("second"):
+            second = os.path.join(cwd, case["second"])
+            os.makedirs(os.path.dirname(second), exist_ok=True)
+            with open(second, "w", encoding="utf-8") as f:
+                f.write("\n".join(body2) + "\n")
+            argv.append(case["second"])
         opts = [o.replace("@ABS@", absdir) for o in case["opts"]]
         argv += opts
         if opts[:1] == ["-o"]:
